@@ -73,7 +73,7 @@ func (p *resultsPrinter) PrintResults(matchingNodes *list.List) error {
 
 	if matchingNodes.Len() == 0 {
 		log.Debug("no matching results, nothing to print")
-		return nil
+		return p.printAppendix()
 	}
 
 	if !p.encoder.CanHandleAliases() {
@@ -155,6 +155,11 @@ func (p *resultsPrinter) PrintResults(matchingNodes *list.List) error {
 		log.Debugf("done printing results")
 	}
 
+	return p.printAppendix()
+}
+
+// copies the text after the front matter (if any) to the output, also when there was no result to print
+func (p *resultsPrinter) printAppendix() error {
 	// what happens if I remove output format check?
 	if p.appendixReader != nil {
 		writer, err := p.printerWriter.GetWriter(nil)
